@@ -90,6 +90,7 @@ def gen(S, tier):
         "skew": c.chance(0.12),
         # section outputs count screen rows: sometimes the terminal is exactly as wide as the frame
         "exact_columns": c.chance(0.3),
+        "real_stream": c.chance(0.25),
     }
     f = S("faults")
     lat = []
@@ -142,7 +143,7 @@ def simplify(sc):
     simple = {"verbosity": 0, "bar_width": None, "bar_char": None, "empty_char": "-",
               "progress_char": ">", "redraw_freq": None, "max_interval": None,
               "min_interval_setter": None, "sentinels": 0, "sections_above": 0,
-              "sections_below": 0, "skew": False, "plain_formatter": False, "min_interval": 0}
+              "sections_below": 0, "skew": False, "plain_formatter": False, "min_interval": 0, "real_stream": False}
     for k, v in simple.items():
         if cfg.get(k) != v:
             c = dict(sc)
@@ -282,7 +283,12 @@ def _run(sc, cfg, res, clock, log, columns=200):
                 clock.advance_us(us)
                 res.fault("write_latency")
 
-    stream = SimOutputStream("err", log, ansi=ansi, screen=screen, on_write=on_write)
+    if cfg.get("real_stream"):
+        from ..realstream import RealStreamOutput, SimFile
+        stream = RealStreamOutput(SimFile("err", log, screen=screen, on_write=on_write), ansi)
+        res.probe("real_stream_output")
+    else:
+        stream = SimOutputStream("err", log, ansi=ansi, screen=screen, on_write=on_write)
     if not ansi and cfg["plain_formatter"]:
         fmtr = PlainFormatter()
     else:
